@@ -139,6 +139,21 @@ def covAtTab (f : Fit2) (points : List ℚ) : List (List ℚ) :=
     (tensorEval (nFun f.nseg1 f.deg1) (nFun f.nseg2 f.deg2) f.beta (rd p.1) (rd q.2) +
       tensorEval (nFun f.nseg1 f.deg1) (nFun f.nseg2 f.deg2) f.beta (rd q.1) (rd p.2)) / 2
 
+/-! ### Request-independence logic of the entry points (tied to the source by `Generated/SmoothFormulas.lean`) -/
+
+/-- `IrregularFunctionalData.mean`: the large-sample approximation is used when `approx` and more than 2000 pooled
+observations — a function of the DATA, not of the request. -/
+def approxSwitch (approx : Bool) (nPooled : ℕ) : Bool := approx && decide (2000 < nPooled)
+
+/-- What `points=None` stands for: the data's own sampling points. -/
+def pointsDefault : List (String × String) :=
+  [("DenseFunctionalData.smooth", "self.argvals"), ("DenseFunctionalData.mean", "self.argvals"),
+   ("DenseFunctionalData.covariance", "self.argvals"), ("IrregularFunctionalData.smooth", "self.argvals.to_dense()"),
+   ("IrregularFunctionalData.mean", "self.argvals.to_dense()"), ("IrregularFunctionalData.covariance", "self.argvals.to_dense()")]
+
+/-- `(cov + cov.T) / 2`, entry-wise. -/
+def symmetrise (c ct : ℚ) : ℚ := (c + ct) / 2
+
 /-- Σ|terms| of the evaluation (scale of the float tolerance): truncated-power terms of
 every basis function, weighted by `|β_j|`. -/
 def evalScale (f : Fit1) (q : ℚ) : ℚ :=
